@@ -10,6 +10,9 @@ package wallet
 //@ macro A_SYNC() = sub(ANS(), bytes(waddrmgr.syncBucketName))
 //@ macro A_HAS_HASH(h) = HAS(A_SYNC(), K_h(h))
 //@ macro A_HASH_AT(h) = VAL(A_SYNC(), K_h(h))
+// the same, in the database as it was on entry (h evaluated in the current state)
+//@ macro A_HAD_HASH(h) = select(select(old(DBhas), A_SYNC()), K_h(h))
+//@ macro A_OLD_HASH_AT(h) = select(select(old(DBval), A_SYNC()), K_h(h))
 //@ macro WDBWF(dbtx) = (dbtx != nil && select(DBlive, ANS()) && select(DBlive, TNS()) && select(DBlive, A_SYNC()))
 //@ macro TIP_H(w) = w.Manager.syncState.syncedTo.Height
 //@ macro TIP_HASH(w) = bytes(w.Manager.syncState.syncedTo.Hash)
@@ -54,3 +57,27 @@ package wallet
 //@       ==> old(A_HAS_HASH(b.Height - 1)) && A_HAS_HASH(b.Height - 1)
 //@   ensures parent_hash_kept: err == nil && old(w.chainClientSynced) && b.Height <= old(TIP_H(w)) && old(A_HAS_HASH(b.Height)) && old(A_HASH_AT(b.Height)) == bytes(b.Hash)
 //@       ==> A_HASH_AT(b.Height - 1) == old(A_HASH_AT(b.Height - 1))
+
+// syncWithChain, startup rollback (second database transaction): walking down
+// from the remembered tip, every height above the final stamp has a remembered
+// hash that differs from the backend's, the final stamp is the first height
+// (from the top) where they agree and carries the backend's hash for it, and a
+// rollback is flagged exactly when the walk went below the old tip.
+//@ func (*Wallet).syncWithChain$2(tx) (err)
+//@   property C15
+//@   requires wf: w != nil && w.Manager != nil && w.TxStore != nil && chainClient != nil && WDBWF(tx) && birthdayStamp != nil && !rollback && rollbackStamp.Height >= 0
+//@   requires heights_nonneg: forall h Int :: {K_h(h)} h < 0 && h >= 0 - 2147483648 ==> !A_HAS_HASH(h)
+//@   invariant 1 walk: 0 - 1 <= height && height <= old(rollbackStamp.Height) && rollback == (height < old(rollbackStamp.Height))
+//@       && (height < old(rollbackStamp.Height) ==> rollbackStamp.Height == height + 1)
+//@   invariant 1 mismatch_above: forall h Int :: {K_h(h)} height < h && h <= old(rollbackStamp.Height) ==> !(A_HAD_HASH(h) && A_OLD_HASH_AT(h) == chainHashAt(h))
+//@   invariant 1 db_untouched: DBhas == old(DBhas) && DBval == old(DBval) && DBlive == old(DBlive)
+//@   ensures ancestor_below_tip: err == nil ==> rollbackStamp.Height <= old(rollbackStamp.Height)
+//@   ensures ancestor_known: err == nil ==> A_HAD_HASH(rollbackStamp.Height)
+//@   ensures common_ancestor: err == nil ==> A_OLD_HASH_AT(rollbackStamp.Height) == chainHashAt(rollbackStamp.Height)
+//@   ensures stamp_hash: err == nil ==> bytes(rollbackStamp.Hash) == chainHashAt(rollbackStamp.Height)
+//@   ensures mismatch_above: err == nil ==> (forall h Int :: {K_h(h)} rollbackStamp.Height < h && h <= old(rollbackStamp.Height) ==> !(A_HAD_HASH(h) && A_OLD_HASH_AT(h) == chainHashAt(h)))
+//@   ensures rollback_iff_moved: err == nil ==> rollback == (rollbackStamp.Height < old(rollbackStamp.Height))
+//@   ensures no_rollback_no_change: err == nil && !rollback ==> DBhas == old(DBhas) && DBval == old(DBval)
+//@   ensures tip_is_ancestor: err == nil && rollback ==> TIP_H(w) == rollbackStamp.Height
+//@   ensures tip_hash_is_ancestor: err == nil && rollback ==> TIP_HASH(w) == chainHashAt(rollbackStamp.Height)
+//@   ensures stored_hash_is_chain: err == nil && rollback ==> A_HAS_HASH(rollbackStamp.Height) && A_HASH_AT(rollbackStamp.Height) == chainHashAt(rollbackStamp.Height)
